@@ -32,8 +32,21 @@ const (
 	c16TickGrace = 50 * time.Millisecond
 	c16Stall     = 25 * time.Second // an operation that normally takes microseconds made no progress for this long
 
-	c16EnoughWitnesses = 12 // a test function stops after this many violating scenarios
+	// a test function stops after this many violating scenarios of the kinds that cost
+	// seconds each or may leave goroutines behind (everything except a Wait that returned early)
+	c16EnoughWitnesses = 12
 )
+
+var c16Costly int64
+
+func c16Viol(m *vk.M, sig, scenario, format string, a ...any) {
+	if !strings.HasPrefix(sig, "C16:wait-") {
+		atomic.AddInt64(&c16Costly, 1)
+	}
+	m.Violate(sig, scenario, format, a...)
+}
+
+func c16Enough(base int64) bool { return atomic.LoadInt64(&c16Costly)-base >= c16EnoughWitnesses }
 
 // ---------------------------------------------------------------------------------------
 // harness ticker
@@ -483,18 +496,18 @@ func c16Verify(m *vk.M, desc string, cfg c16Cfg, o c16Obs, st *c16Stats) bool {
 		st.byTrigger[b.trigger]++
 		ord = append(ord, fmt.Sprint(b.trigger[:1], len(b.tasks)))
 		if b.bad != "" {
-			m.Violate("C16:phantom", desc, "%s (batch %v, trigger %s)", b.bad, b.tasks, b.trigger)
+			c16Viol(m, "C16:phantom", desc, "%s (batch %v, trigger %s)", b.bad, b.tasks, b.trigger)
 			return false
 		}
 		for _, t := range b.tasks {
 			st.tasks++
 			if _, ok := added[t]; !ok {
-				m.Violate("C16:phantom", desc, "task %v was executed (batch %v, trigger %s) but never added", t, b.tasks, b.trigger)
+				c16Viol(m, "C16:phantom", desc, "task %v was executed (batch %v, trigger %s) but never added", t, b.tasks, b.trigger)
 				return false
 			}
 			count[t]++
 			if count[t] > 1 {
-				m.Violate("C16:duplicate", desc, "task %v was passed to execute %d times (second time in batch %v, trigger %s)", t, count[t], b.tasks, b.trigger)
+				c16Viol(m, "C16:duplicate", desc, "task %v was passed to execute %d times (second time in batch %v, trigger %s)", t, count[t], b.tasks, b.trigger)
 				return false
 			}
 			endOf[t], trigOf[t] = b.end, b.trigger
@@ -506,7 +519,7 @@ func c16Verify(m *vk.M, desc string, cfg c16Cfg, o c16Obs, st *c16Stats) bool {
 		switch cfg.Kind {
 		case "bulk":
 			if len(b.tasks) > cfg.N {
-				m.Violate("C16:bulk-overflow", desc, "bulk batch of %d tasks, configured task count %d: %v (trigger %s)", len(b.tasks), cfg.N, b.tasks, b.trigger)
+				c16Viol(m, "C16:bulk-overflow", desc, "bulk batch of %d tasks, configured task count %d: %v (trigger %s)", len(b.tasks), cfg.N, b.tasks, b.trigger)
 				return false
 			}
 		case "chunk":
@@ -515,7 +528,7 @@ func c16Verify(m *vk.M, desc string, cfg c16Cfg, o c16Obs, st *c16Stats) bool {
 				sum += t.Size
 			}
 			if n := len(b.tasks); n > 0 && sum-b.tasks[n-1].Size >= cfg.N {
-				m.Violate("C16:chunk-overflow", desc, "chunk batch of %d bytes exceeds the limit %d by at least its last task (%d bytes): %v (trigger %s)", sum, cfg.N, b.tasks[n-1].Size, b.tasks, b.trigger)
+				c16Viol(m, "C16:chunk-overflow", desc, "chunk batch of %d bytes exceeds the limit %d by at least its last task (%d bytes): %v (trigger %s)", sum, cfg.N, b.tasks[n-1].Size, b.tasks, b.trigger)
 				return false
 			}
 		}
@@ -525,11 +538,11 @@ func c16Verify(m *vk.M, desc string, cfg c16Cfg, o c16Obs, st *c16Stats) bool {
 		for i, t := range b.tasks {
 			if p, ok := last[t.A]; ok {
 				if t.S < p {
-					m.Violate("C16:order:within-adder", desc, "batch %v (trigger %s): task %v after %d.%d, added in the opposite order", b.tasks, b.trigger, t, t.A, p)
+					c16Viol(m, "C16:order:within-adder", desc, "batch %v (trigger %s): task %v after %d.%d, added in the opposite order", b.tasks, b.trigger, t, t.A, p)
 					return false
 				}
 				if t.S != p+1 {
-					m.Violate("C16:order:gap", desc, "batch %v (trigger %s): adder %d's tasks jump from %d to %d; the tasks in between were batched elsewhere", b.tasks, b.trigger, t.A, p, t.S)
+					c16Viol(m, "C16:order:gap", desc, "batch %v (trigger %s): adder %d's tasks jump from %d to %d; the tasks in between were batched elsewhere", b.tasks, b.trigger, t.A, p, t.S)
 					return false
 				}
 			}
@@ -537,7 +550,7 @@ func c16Verify(m *vk.M, desc string, cfg c16Cfg, o c16Obs, st *c16Stats) bool {
 			for j := i + 1; j < len(b.tasks); j++ {
 				u := b.tasks[j]
 				if ue := added[u].end; ue != 0 && ue < added[t].begin {
-					m.Violate("C16:order:cross-adder", desc, "batch %v (trigger %s): Add(%v) returned (stamp %d) before Add(%v) was called (stamp %d), yet %v comes first in the batch", b.tasks, b.trigger, u, ue, t, added[t].begin, t)
+					c16Viol(m, "C16:order:cross-adder", desc, "batch %v (trigger %s): Add(%v) returned (stamp %d) before Add(%v) was called (stamp %d), yet %v comes first in the batch", b.tasks, b.trigger, u, ue, t, added[t].begin, t)
 					return false
 				}
 			}
@@ -563,20 +576,20 @@ func c16Verify(m *vk.M, desc string, cfg c16Cfg, o c16Obs, st *c16Stats) bool {
 				who = "the driver"
 			}
 			if !ok {
-				m.Violate("C16:lost", desc, "task %v (Add returned at stamp %d) was never passed to execute, although Wait by %s (called at %d) returned at %d and nothing is executing any more", a.task, a.end, who, w.begin, w.end)
+				c16Viol(m, "C16:lost", desc, "task %v (Add returned at stamp %d) was never passed to execute, although Wait by %s (called at %d) returned at %d and nothing is executing any more", a.task, a.end, who, w.begin, w.end)
 				return false
 			}
 			sig := "C16:wait-returned-early:" + trigOf[a.task] + "-batch"
 			if trigOf[a.task] == "threshold" {
 				sig = "C16:wait-during-handoff" // the batch went through the commander hand-off
 			}
-			m.Violate(sig, desc, "Wait by %s was called at stamp %d (after Add(%v) had returned at %d) and returned at %d, but the batch containing %v (trigger %s) finished executing only at %d", who, w.begin, a.task, a.end, w.end, a.task, trigOf[a.task], e)
+			c16Viol(m, sig, desc, "Wait by %s was called at stamp %d (after Add(%v) had returned at %d) and returned at %d, but the batch containing %v (trigger %s) finished executing only at %d", who, w.begin, a.task, a.end, w.end, a.task, trigOf[a.task], e)
 			return false
 		}
 	}
 	for _, a := range o.adds {
 		if a.end != 0 && count[a.task] == 0 {
-			m.Violate("C16:lost", desc, "task %v (Add returned at stamp %d) was never passed to execute", a.task, a.end)
+			c16Viol(m, "C16:lost", desc, "task %v (Add returned at stamp %d) was never passed to execute", a.task, a.end)
 			return false
 		}
 	}
